@@ -27,6 +27,7 @@ mod alloc;
 mod c18;
 mod resolve;
 mod c06;
+mod c05;
 
 use engine::{Env, Tier};
 
@@ -133,6 +134,7 @@ fn main() {
         "C07" => c07::run(&env),
         "C18" => c18::run(&env),
         "C06" => c06::run(&env),
+        "C05" => c05::run(&env),
         _ => usage(),
     };
     std::process::exit(code);
